@@ -21,7 +21,32 @@ def c04(run):
                        "non-trivial = expected bundle differs from the input bundle or an error is expected")
 
 
+def c18(run):
+    run.assumptions += TRUSTED[:1] + ["a packed place is built by writing the raw Option<u16> through Place's public DerefMut"]
+    cfg = "gen/GEN_C18_%s.cfg" % run.tier
+    res = run_tlc("GEN_C18", "gen/GEN_C18.tla", cfg, env=run.known_env(), consumer=[HARNESS, "replay", "C18"], timeout=3000)
+    run.add_tlc("GEN_C18", res, "M: PlacePacking!Refines and the get/set/frame/last-gone/no-residue laws as invariants over every packed value x 80 setter calls; "
+                                "S->I: the real accessors computed on the same packed value must equal the concrete model bit for bit")
+    run.cov["exhaustive"] = run.tier == "thorough"
+    run.cov["rule"] = ("every well-formed packed place (8125 + None) and, thorough, every one of the 2^16 values (quick: the ill-formed ones with u % 16 = seed % 16); "
+                       "per value: 4 getters, 80 setter calls, 24 place-feature set/match calls through Segment; plus all 256 bytes of root/manner/laryngeal x their features x polarity; "
+                       "non-trivial = the call changes the packed value")
+
+
+def c05(run):
+    run.assumptions += TRUSTED + ["rule texts are printed from the vector by harness/src/c05.rs::rule_text"]
+    cfg = "gen/GEN_C05_%s.cfg" % run.tier
+    res = run_tlc("GEN_C05", "gen/GEN_C05.tla", cfg, env=run.known_env(), consumer=[HARNESS, "replay", "C05"], timeout=3000)
+    run.add_tlc("GEN_C05", res, "S->I: TLC enumerates (length, stress, tone) x (3^4 x 5 modifier combinations) x side x element kind x position with the outcome of Supra's tables; "
+                                "replayed through the real rule pipeline on a three-syllable word; Supra!SetThenMatch and FrameLaw checked as invariants")
+    run.cov["exhaustive"] = run.tier == "thorough"
+    run.cov["rule"] = ("36 states x 405 modifier sets x {in,out} x {ipa,grp,mx,syl} x {first,mid,last}; thorough: all; quick: every set with <= 1 modifier plus a seeded tenth; "
+                       "non-trivial = the expected word differs from the input or an error is expected")
+
+
 PROPS = {
+    "C05": (c05, "model_checking"),
+    "C18": (c18, "model_checking"),
     "C04": (c04, "model_checking"),
 }
 
